@@ -238,7 +238,9 @@ class UDPMessageDeserializer:
             # the meaning of the data.
             if unpacked_data.endswith(b"\x00"):
                 try:
-                    return unpacked_data.decode("utf8").rstrip("\x00")
+                    # Only strip the one terminator that packing the string will add
+                    # back, any further trailing nulls are part of the data.
+                    return unpacked_data[:-1].decode("utf8")
                 except UnicodeDecodeError:
                     pass
             # Failed, return jank stringy bytes
